@@ -658,11 +658,15 @@ NvmModule *asm_assemble(const char *source, AsmResult *result) {
         memcpy(line_buf, line_start, line_len);
         line_buf[line_len] = '\0';
 
-        /* Strip trailing comment */
-        char *comment = strchr(line_buf, ';');
-        if (comment) *comment = '\0';
-        comment = strchr(line_buf, '#');
-        if (comment) *comment = '\0';
+        /* Strip trailing comment (a ';' or '#' inside a quoted string is data) */
+        {
+            bool in_quotes = false;
+            for (char *c = line_buf; *c; c++) {
+                if (in_quotes && *c == '\\' && c[1]) { c++; continue; }
+                if (*c == '"') { in_quotes = !in_quotes; continue; }
+                if (!in_quotes && (*c == ';' || *c == '#')) { *c = '\0'; break; }
+            }
+        }
 
         /* Strip trailing whitespace */
         size_t len = strlen(line_buf);
